@@ -21,8 +21,8 @@ UNITS = {
               ("0.00000001", "43210.98765432"), ("0.33333333333", "0.7"), ("123456.78901234567", "0.00012345"), ("1", "1")],
     # C08: every lattice overdraft exceeds 1e-10
     "coarse": [("0.0000000002", "1"), ("1", "1"), ("0.5", "10")],
-    # C08: single debits below the 1e-10 tolerance that add up beyond it (one unit: inside the band; two units: must be rejected)
-    "dust": [("0.00000000006", "1000")],
+    # C08: single debits below the 1e-10 tolerance that add up beyond it (4e-11: one and two units inside the band, three must be rejected)
+    "dust": [("0.00000000004", "1000"), ("0.00000000006", "1000")],
 }
 
 
@@ -202,6 +202,9 @@ def plan(prop, tier):
               B("M", 3, runs=runs_neg, configs=cfg_one_method, units="coarse", sample=800 if q else 10000),
               B("M", 9, sim=100 if q else 1500, depth=9, mode="any", runs=runs_neg, configs=cfg_one_method, units="coarse"),
               B("M", 7, sim=150 if q else 2000, depth=7, mode="any", runs=runs_neg, configs=cfg_one_method, units="dust"),
+              # an account drawn below zero one unit at a time, the unit below / at the tolerance: every history to 5 (thorough 6) transactions
+              B("O", 5 if q else 6, mode="covered", runs=runs_neg, configs=cfg_one_method, units="dust"),
+              B("O", 4 if q else 5, mode="covered", runs=runs_neg, configs=cfg_one_method, units="coarse"),
               B("M", 3, mode="any", runs=runs_neg_windows, configs=cfg_one_method, units="coarse", sample=500 if q else 8000)]     # an overdraft before the from-date still counts
     elif prop == "C09":
         mc = [("A", 3, "valid", "single")] if q else [("A", 3, "valid", "all")]
@@ -288,7 +291,8 @@ def mutate(trace, prop, rnd):
         lines[i]["bal"][rnd.randrange(len(lines[i]["bal"]))][rnd.choice([1, 2, 3, 4])] += 1
     elif prop == "C08":
         cand = [i for i, ln in enumerate(lines) if ln["a"] == "Obs" and ln["status"] == "balance"]
-        okneg = [i for i in obs if not lines[i]["neg"]]
+        # (with units below the tolerance a small negative balance may or may not be rejected: such traces offer no "must not reject" control)
+        okneg = [i for i in obs if not lines[i]["neg"]] if t["meta"]["conc"]["U"] not in [u for u, _ in UNITS["dust"]] else []
         if cand and rnd.random() < 0.5:
             lines[rnd.choice(cand)]["acct"] = 31
         elif okneg:
